@@ -83,6 +83,8 @@ type vfCFObs struct {
 	Hard int       `json:"hard"`
 	Cpi  int       `json:"cpi"`
 	Rsc  []int     `json:"rsc,omitempty"` // scenario of the CFRace slice
+	Ev   *[]int    `json:"ev,omitempty"`  // CFRace: block events delivered so far
+	Q    *int      `json:"q,omitempty"`   // CFRace: 1 once both functions returned
 }
 
 type vfCFStepIn struct {
@@ -216,8 +218,9 @@ func vfCFScript(tag string, parts ...[]byte) []byte {
 	return append([]byte{0x00, 0x14}, h[:20]...)
 }
 
-// vfCFRealBlock builds a small real block (coinbase + one transaction with
-// two outputs) on top of prev.
+// vfCFRealBlock builds a small real block (coinbase + one transaction with two
+// ordinary outputs, an unparsable output script and an OP_RETURN output) on
+// top of prev.
 func vfCFRealBlock(branch, r int, prev chainhash.Hash, ts int64) (*wire.MsgBlock, [][]byte) {
 	id := append(vfCFU32(branch), vfCFU32(r)...)
 	cb := wire.NewMsgTx(2)
@@ -236,6 +239,11 @@ func vfCFRealBlock(branch, r int, prev chainhash.Hash, ts int64) (*wire.MsgBlock
 	})
 	tx.AddTxOut(wire.NewTxOut(1000, vfCFScript("o0", id)))
 	tx.AddTxOut(wire.NewTxOut(2000, vfCFScript("o1", id)))
+	// a script that does not parse (PUSHDATA1 announcing more bytes than
+	// follow): BIP158 filters contain it like any other output script ...
+	tx.AddTxOut(wire.NewTxOut(3000, []byte{0x4c, 0x05, byte(r), byte(branch)}))
+	// ... and an OP_RETURN output, which they leave out
+	tx.AddTxOut(wire.NewTxOut(0, append([]byte{0x6a, 0x08}, id...)))
 	h0, h1 := cb.TxHash(), tx.TxHash()
 	var buf [64]byte
 	copy(buf[:32], h0[:])
@@ -537,7 +545,7 @@ func (e *vfCFEnv) kind(p int) string { return e.asg[p-1].Kind }
 
 func (e *vfCFEnv) liesCF(p int) bool {
 	switch e.kind(p) {
-	case "OM", "NH", "NS", "EX", "HC":
+	case "OM", "OU", "NH", "NS", "EX", "HC":
 		return true
 	}
 	return false
@@ -545,7 +553,7 @@ func (e *vfCFEnv) liesCF(p int) bool {
 
 func (e *vfCFEnv) liesCP(p int) bool {
 	switch e.kind(p) {
-	case "CP", "CX", "PV", "OM", "NH", "NS", "EX":
+	case "CP", "CX", "PV", "OM", "OU", "NH", "NS", "EX":
 		return true
 	}
 	return false
@@ -571,7 +579,8 @@ func (e *vfCFEnv) locate(h chainhash.Hash) (*vfCFChain, int, bool) {
 }
 
 // filterFor builds the GCS filter of the given kind for a real block.
-// kind: "true", "om" (omits an output script), "ex" (extra element).
+// kind: "true", "om" (omits an ordinary output script), "ou" (omits the
+// output script that does not parse), "ex" (extra element).
 func (e *vfCFEnv) filterFor(c *vfCFChain, r int, kind string, p int) *gcs.Filter {
 	blk := c.blk[r]
 	if blk == nil {
@@ -588,8 +597,11 @@ func (e *vfCFEnv) filterFor(c *vfCFChain, r int, kind string, p int) *gcs.Filter
 	b := builder.WithKeyHash(&bh)
 	for ti, tx := range blk.Transactions {
 		for oi, out := range tx.TxOut {
-			if kind == "om" && ti == 1 && oi == 0 {
+			if (kind == "om" && ti == 1 && oi == 0) || (kind == "ou" && ti == 1 && oi == 2) {
 				continue // the omitted output script
+			}
+			if len(out.PkScript) == 0 || out.PkScript[0] == 0x6a {
+				continue // OP_RETURN outputs are not part of a basic filter
 			}
 			b.AddEntry(out.PkScript)
 		}
@@ -615,6 +627,12 @@ func (e *vfCFEnv) fakeHash(c *vfCFChain, p int) chainhash.Hash {
 	}
 	var h chainhash.Hash
 	switch e.kind(p) {
+	case "OU":
+		fh, err := builder.GetFilterHash(e.filterFor(c, r, "ou", p))
+		if err != nil {
+			panic(err)
+		}
+		h = fh
 	case "OM", "HC", "FO":
 		fh, err := builder.GetFilterHash(e.filterFor(c, r, "om", p))
 		if err != nil {
@@ -725,6 +743,8 @@ func (e *vfCFEnv) respFilter(p int, q *wire.MsgGetCFilters) wire.Message {
 	kind := "true"
 	if r == e.liePos(p) {
 		switch e.kind(p) {
+		case "OU":
+			kind = "ou"
 		case "OM", "HC", "FO":
 			kind = "om"
 		case "EX":
